@@ -85,6 +85,22 @@ namespace
     inline uint64_t value_of(const P& p) { return p.id; }
     inline uint64_t value_of(double d) { return static_cast<uint64_t>(d < 0 ? -d : d); }
     inline uint64_t value_of(bool b) { return b ? 1 : 0; }
+    inline uint64_t value_of(const xtl::xclosure_wrapper<P&>& w) { return w.get().id; }
+
+    // operator& applied to a temporary wrapper yields an OWNING pointer object: it must stay valid after the temporary died
+    template <class W, class G>
+    uint64_t amp_after_death(const W& src, G get)
+    {
+        std::unique_ptr<W> t(new W(src));
+        const char* lo = reinterpret_cast<const char*>(t.get());
+        const char* hi = lo + sizeof(W);
+        auto ptr = &std::move(*t);
+        const char* pp = reinterpret_cast<const char*>(std::addressof(*ptr));
+        bool inside = pp >= lo && pp < hi;
+        t.reset();
+        if (inside) return DANGLING;
+        return get(*ptr);
+    }
 
     // Applies an rvalue accessor to a temporary copy of the wrapper that lives on the heap, ends the temporary's
     // lifetime (the injected fault), and only then reads the result: a value closure must have handed out an
@@ -153,6 +169,39 @@ namespace
         bool do_swap(H&, std::false_type) { return false; }
     };
 
+    // closure(closure(x)): an owning wrapper around a reference wrapper - designates x through two levels, and its swap
+    // and assignment must reach x through the inner wrapper's own swap/assignment
+    struct HNested : HW<xtl::xclosure_wrapper<xtl::xclosure_wrapper<P&>>>
+    {
+        using W = xtl::xclosure_wrapper<xtl::xclosure_wrapper<P&>>;
+        using HW<W>::HW;
+        uint64_t read(int form) override
+        {
+            if (form == 0) return w->get().get().id;
+            if (form == 1) return static_cast<const W&>(*w).get().get().id;
+            return after_death(static_cast<const W&>(*w), [](W&& x) -> decltype(auto) { return std::move(x).get(); });
+        }
+        void write(uint64_t v, int form) override { Suspend s; P val(v); if (form == 0) w->get() = val; else w->get().get() = val; }
+        const void* addr() override { return &static_cast<const W&>(*w).get().get(); }
+        const void* addr_amp() override { return std::addressof(*(&w->get())); }
+        H* clone() override { auto* h = new HNested(static_cast<const W&>(*w)); h->kind = kind; h->ref = ref; h->owned = owned; h->writable = writable; h->flag_addr = flag_addr; h->value_addr = value_addr; return h; }
+        bool assign_from(H& o, bool move) override
+        {
+            auto* q = dynamic_cast<HNested*>(&o);
+            if (!q) return false;
+            if (move) *w = std::move(*q->w); else *w = static_cast<const W&>(*q->w);
+            return true;
+        }
+        bool swap_with(H& o) override
+        {
+            auto* q = dynamic_cast<HNested*>(&o);
+            if (!q) return false;
+            using std::swap;
+            swap(*w, *q->w);
+            return true;
+        }
+    };
+
     // xclosure_pointer<CT>
     template <class CT> struct HPointer : HW<xtl::xclosure_pointer<CT>>
     {
@@ -192,6 +241,7 @@ namespace
             case 4: { auto& r = xtl::value(*this->w); return &r == &this->w->value() ? r.id : MISPLACED; }         // free functions
             case 5: { auto& r = xtl::value(cw); return &r == &cw.value() ? r.id : MISPLACED; }
             case 6: return after_death(cw, [](W&& x) -> decltype(auto) { return xtl::value(std::move(x)); }, this->value_addr);
+            case 8: return amp_after_death(cw, [](const W& x) { return x.value().id; });
             default:
             {
                 // the flag through every accessor: true, and for a reference closure the caller's own flag
@@ -208,7 +258,7 @@ namespace
             }
             }
         }
-        int forms() const override { return 8; }
+        int forms() const override { return 9; }
         void write(uint64_t v, int form) override { Suspend s; P val(v); if (form == 0) *this->w = val; else if (form == 1) this->w->value() = val; else xtl::value(*this->w) = val; }
         const void* addr() override { return &static_cast<const W&>(*this->w).value(); }
         const void* addr_amp() override
@@ -276,7 +326,13 @@ namespace
     {
         using W = xtl::xproxy_wrapper<P>;
         using HW<W>::HW;
-        uint64_t read(int form) override { if (form == 1) return static_cast<const P&>(*w).id; return static_cast<P&>(*w).id; }
+        uint64_t read(int form) override
+        {
+            if (form == 1) return static_cast<const P&>(*w).id;
+            if (form == 3) return amp_after_death(static_cast<const W&>(*w), [](const auto& x) { return static_cast<const P&>(x).id; });
+            return static_cast<P&>(*w).id;
+        }
+        int forms() const override { return 4; }
         void write(uint64_t v, int) override { static_cast<P&>(*w).id = v; }
         const void* addr() override { return static_cast<const P*>(w.get()); }
         const void* addr_amp() override { auto p = &(*w); return static_cast<const P*>(&(*p)); }
@@ -305,11 +361,12 @@ namespace
                 if (&xtl::real(*this->w) != &this->w->real() || &xtl::imag(*this->w) != &this->w->imag()) return MISPLACED;
                 if (&xtl::real(cw) != &cw.real() || &xtl::imag(cw) != &cw.imag()) return MISPLACED;
                 return enc(xtl::real(cw), xtl::imag(cw));
-            default: return pair(after_death(cw, [](W&& x) -> decltype(auto) { return xtl::real(std::move(x)); }),
-                                 after_death(cw, [](W&& x) -> decltype(auto) { return xtl::imag(std::move(x)); }));
+            case 5: return pair(after_death(cw, [](W&& x) -> decltype(auto) { return xtl::real(std::move(x)); }),
+                                after_death(cw, [](W&& x) -> decltype(auto) { return xtl::imag(std::move(x)); }));
+            default: return amp_after_death(cw, [](const W& x) { return enc(x.real(), x.imag()); });
             }
         }
-        int forms() const override { return 6; }
+        int forms() const override { return 7; }
         void write(uint64_t v, int form) override
         {
             if (form == 0) { this->w->real() = static_cast<double>(v); this->w->imag() = -static_cast<double>(v); }
@@ -516,9 +573,12 @@ namespace
                 if (cat <= 1) { out = new HOptional<P&, bool>(xtl::optional(f.obj, true)); name = "optional_lvalue_value_own_flag"; aliases = true; }
                 else { out = new HOptional<P, bool&>(xtl::optional(std::move(*tmp), f.flag)); name = "optional_own_value_lvalue_flag"; out->flag_addr = &f.flag; }
                 break;
-            default:  // xmasked_value with closures of different kinds
+            case 9:   // xmasked_value with closures of different kinds
                 if (cat <= 1) { out = new HMasked<P&, bool>(f.obj, true); name = "masked_lvalue_value_own_flag"; aliases = true; }
                 else { out = new HMasked<P, bool&>(std::move(*tmp), f.flag); name = "masked_own_value_lvalue_flag"; out->flag_addr = &f.flag; }
+                break;
+            default:  // closure of a closure
+                out = new HNested(xtl::closure(xtl::closure(f.obj))); name = "closure_of_closure_lvalue"; aliases = true;
                 break;
             }
             out->kind = name;
@@ -536,10 +596,10 @@ namespace
         void op_build(const Step& st)
         {
             int slot = st.actor % 4;
-            unsigned factory = static_cast<unsigned>(st.d % 10), cat = static_cast<unsigned>(st.a % 5);
+            unsigned factory = static_cast<unsigned>(st.d % 11), cat = static_cast<unsigned>(st.a % 5);
             int r = static_cast<int>(st.c % 3);
             // name is only known after building; use a provisional scope name from the indices
-            static const char* const fn[] = {"closure", "const_closure", "closure_pointer", "const_closure_pointer", "optional", "masked_value", "proxy_wrapper", "complex", "optional_mixed", "masked_mixed"};
+            static const char* const fn[] = {"closure", "const_closure", "closure_pointer", "const_closure_pointer", "optional", "masked_value", "proxy_wrapper", "complex", "optional_mixed", "masked_mixed", "closure_of_closure"};
             static const char* const cn[] = {"lvalue", "const_lvalue", "prvalue", "xvalue", "const_xvalue"};
             Scope sc(*this, st, "build", std::string(fn[factory]) + "_" + cn[cat]);
             h[slot].reset();
@@ -754,8 +814,8 @@ namespace
         void op_cross_closure(const Step& st)
         {
             static const char* const vn[] = {"own_from_proxy_lvalue", "own_from_proxy_moved", "own_from_proxy_temporary", "construct_own_from_proxy_temporary", "construct_own_from_proxy_moved",
-                                             "proxy_from_own_lvalue", "proxy_from_own_moved", "own_from_proxy_const"};
-            unsigned v = static_cast<unsigned>(st.d % 8);
+                                             "proxy_from_own_lvalue", "proxy_from_own_moved", "own_from_proxy_const", "swap_same_referent_different_flags"};
+            unsigned v = static_cast<unsigned>(st.d % 9);
             int r = static_cast<int>(st.c % 3);
             Scope sc(*this, st, "cross_closure", vn[v]);
             Referent& f = *refs[r];
@@ -763,6 +823,18 @@ namespace
             using Proxy = xtl::xoptional<P&, bool&>;
             uint64_t id = fresh();
             uint64_t before = val[r];
+            if (v == 8)
+            {
+                // two proxies onto the same value whose flags are different objects holding different values: swap exchanges the flags
+                bool f1 = true, f2 = false;
+                Proxy a = xtl::optional(f.obj, f1), b = xtl::optional(f.obj, f2);
+                if (st.b & 1) a.swap(b); else b.swap(a);
+                if (f1 != false || f2 != true) viol("model", "swap", "swapping two optionals onto the same value did not exchange their (different) flags");
+                if (f.obj.id != before) viol("model", "swap", "swapping two optionals onto the same value changed it");
+                SIM_PROBE("cross_closure_kind_assignment");
+                check_all();
+                return;
+            }
             {
                 Own own(P(id), true);
                 Proxy px = xtl::optional(f.obj, f.flag);
